@@ -27,6 +27,7 @@ RULE += (' Also: source flavours async_class_bare / async_class_future (non-coro
 RULE += (' Also: a callable that fails at its k-th call (incl. StopIteration / StopAsyncIteration) for every flavour of callable.')
 RULE += (' Also: a source failing at its k-th use (AttributeError, TypeError, KeyError, ...) for every flavour of source; asynctools.any_iter; iterables that are not iterators.')
 RULE += (' Also: scoped_iter blocks (closing tools on the handle, then the rest) over every flavour of source.')
+RULE += (' Also: a context decorator around every flavour of awaitable-returning callable, incl. one doing its work when called.')
 ASSUMPTIONS = ["baseline (list + def) behaviour itself is judged by C01/C02, not here"]
 EXHAUSTIVE = {"quick": False, "thorough": False}
 N_SPECS = {"quick": 6000, "thorough": 200000}
@@ -62,6 +63,13 @@ def cases(tier, seed, shard, nshards):
     if shard == 0:
         yield {"kind": "return-kinds"}
     k = 0
+    for manager in ("class", "generator"):
+        for fail in (False, True):
+            for suppress in (False, True):
+                for susp in (0, 1):
+                    k += 1
+                    if k % nshards == shard:
+                        yield {"kind": "decorated", "manager": manager, "fail": fail, "suppress": suppress, "susp": susp}
     for n in range(0, 8):
         for b in range(len(SCOPED_BLOCKS)):
             k += 1
@@ -546,9 +554,118 @@ def run_scoped(case, stats):
     return {"violations": viols, "evals": len(SRC_FL) - 1, "sigs": sigs}
 
 
+def run_decorated(case, stats):
+    """A context manager used as a DECORATOR around every flavour of awaitable-returning callable: the call - also
+    one that does its work right away and hands back an already computed awaitable - happens inside the context."""
+    import asyncstdlib as A
+    from ..probes import FnState, make_fn
+    from ..loop import Suspend
+    outcomes = {}
+    for fl in ("async_def", "partial", "callobj", "awaitobj", "eager"):
+        CTX.reset()
+        events = []
+        state = {"active": False}
+        failure = ValueError("the body fails")
+
+        def impl(x):
+            events.append(("work", state["active"]))
+            if case["fail"]:
+                raise failure
+            return ("result", x, state["active"])
+
+        fs = FnState("body", impl, case["susp"])
+        if fl == "eager":
+            class Resolved:
+                def __init__(self, value):
+                    self.value = value
+
+                def __await__(self):
+                    return self.value
+                    yield  # pragma: no cover
+
+            class Eager:
+                """Does its work when CALLED (validation, a cache look-up) and hands back a finished awaitable."""
+
+                def __call__(self, x):
+                    return Resolved(impl(x))
+
+            body = Eager()
+        else:
+            body = make_fn(fs, fl)
+
+        async def enter():
+            events.append("enter")
+            if case["susp"]:
+                await Suspend("enter", 1)
+            state["active"] = True
+
+        async def leave(exc):
+            events.append(("exit", type(exc).__name__ if exc is not None else None))
+            state["active"] = False
+            return bool(case["suppress"] and isinstance(exc, ValueError))
+
+        if case["manager"] == "class":
+            class Manager(A.ContextDecorator):
+                def __bool__(self):
+                    return False
+
+                async def __aenter__(self):
+                    await enter()
+                    return self
+
+                async def __aexit__(self, et, exc, tb):
+                    return await leave(exc)
+
+            deco = Manager()
+        else:
+            @A.contextmanager
+            async def manager():
+                await enter()
+                try:
+                    yield
+                except BaseException as exc:  # noqa: BLE001
+                    if not await leave(exc):
+                        raise
+                else:
+                    await leave(None)
+
+            deco = manager()
+        decorated = deco(body)
+
+        async def main():
+            out = []
+            for k in range(2):
+                try:
+                    out.append(("ok", await decorated(k)))
+                except ValueError as exc:
+                    out.append(("raise", exc is failure))
+            return out
+
+        try:
+            res = drive(main())
+        except BaseException as exc:  # noqa: BLE001
+            res = ("raised", type(exc).__name__, str(exc)[:80])
+        outcomes[fl] = (res, list(events), list(CTX.foreign))
+    base = outcomes["async_def"]
+    if not isinstance(base[0], list):
+        raise RuntimeError(f"decorated baseline ended with {base[0]}")  # a harness problem
+    viols, sigs = [], []
+    for fl, got in outcomes.items():
+        stats["decorated_callable_variant_runs"] += 1
+        sigs.append(("decorated", str(case), fl))
+        if got[2]:
+            viols.append({"key": "decorator/foreign-suspension", "msg": f"decorated {fl} {case}: {got[2][0]}"})
+        elif got[:2] != base[:2]:
+            viols.append({"key": "decorator/result", "msg": f"context decorator around a {fl} callable {case}: {got[:2]} vs around an "
+                                                          f"async def {base[:2]}"[:900]})
+    return {"violations": viols, "evals": len(outcomes), "sigs": sigs}
+
+
 def run_case(case, stats: Counter):
     if case["kind"] == "groupby":
         return run_groupby(case, stats)
+    if case["kind"] == "decorated":
+        return run_decorated(case, stats)
     if case["kind"] == "scoped":
         return run_scoped(case, stats)
     if case["kind"] == "return-kinds":
